@@ -88,7 +88,11 @@ func main() {
 	if want("inv") {
 		invCases(r, per(hx.N(300, 4000)))
 	}
+	if want("ninv") {
+		ninvCases(r, per(hx.N(200, 4000)))
+	}
 	if want("sweep") {
 		sweepCases()
+		sweepExtreme()
 	}
 }
